@@ -120,6 +120,22 @@ Theorem deflate_roundtrip_under_zlib :
 Proof. exact deflate_roundtrip_lemma. Qed.
 Print Assumptions deflate_roundtrip_under_zlib.
 
+(** Position bookkeeping of hcomp.c: where Hseek lands for each origin (DF_START / DF_CURRENT / DF_END: relative to the
+    length of the UNCOMPRESSED data) and which length Hread uses (0 = to the end; beyond the end is refused) -- the
+    expressions regenerated from HCPseek / HCPread equal the rules of the specification (CompSpec.seek_target, s_step). *)
+Theorem seek_origin_refines : forall origin off pos len, In origin [DF_START; DF_CURRENT; DF_END] ->
+  seek_target origin off pos len = Some (hcp_seek_offset origin off pos len) /\
+  (hcp_seek_rejects (hcp_seek_offset origin off pos len) = true <->
+   match seek_target origin off pos len with Some t => t < 0 | None => True end).
+Proof. exact seek_origin_lemma. Qed.
+Print Assumptions seek_origin_refines.
+
+Theorem read_rule_refines : forall n pos len, 0 <= pos <= len -> 0 <= n ->
+  let k := if n =? 0 then len - pos else n in
+  hcp_read_length n pos len = k /\ hcp_read_rejects n pos len = negb ((0 <=? k) && (pos + k <=? len)).
+Proof. exact read_rule_lemma. Qed.
+Print Assumptions read_rule_refines.
+
 (** Bit-granular I/O: ANY sequence of Hbitwrite(count_i, v_i) with 1 <= count_i <= 32 followed by the flush, read
     back with ANY sequence of Hbitread widths 1..32 (any re-partition) and Hbitseek(byte, bit) positions that stay
     inside the written bits, returns exactly what the bit-array specification returns (CompSpec.b_step: a read
